@@ -106,11 +106,12 @@ struct Scenario {
 	int cut = -2;             // scripted mode: -2 rng, -1 never drops out, >=0 randomizer index of the drop-out
 	int rep = 0;
 	long alter_k = 0;         // bcalter: 1-based index of the own broadcast of the signing phase whose payload is altered
+	int alter_mode = 0;       // bcalter: 0 = payload + 1 (a wrong value), 1 = payload - q (the same residue, negative representative)
 	bool bigmsg = false;      // DSS: key generation + one signature on a 256-bit message (expected: refusal)
 	double preempt = 0.0;     // probability of a task switch after a Send
 	std::string desc() const {
 		J d; d.kv("kind", "run").kv("scheme", SCHEME[scheme]).kv("n", (long long)n).kv("thr", (long long)t).arrn("faulty", faulty).kv("fmode", FMODE[fmode]).kv("rep", rep);
-		if (fmode == FM_BCALT) d.kv("alter_k", (long long)alter_k);
+		if (fmode == FM_BCALT) { d.kv("alter_k", (long long)alter_k); if (alter_mode) d.kv("alter", "minus-q"); }
 		if (bigmsg) d.kv("bigmsg", true);
 		if (preempt > 0) d.kv("preempt", preempt);
 		return d.str();
@@ -151,7 +152,7 @@ struct Run {
 // (own broadcast = r-send tuple (ID, j, s, 1, payload) with j = owner; a new (ID, s) pair is a new broadcast)
 class AlterUnicast : public SimUnicast {
 public:
-	bool enabled = false, fired = false, have_last = false, repl = false; long k = 0, nb = 0;
+	bool enabled = false, fired = false, have_last = false, repl = false; long k = 0, nb = 0; int mode = 0; mpz_srcptr qq = nullptr;
 	mpz_t last_id, last_s, repl_val;
 	AlterUnicast(size_t n_, size_t j_, Net *nt, size_t sched, time_t to) : SimUnicast(n_, j_, nt, sched, to) { mpz_init(last_id); mpz_init(last_s); mpz_init(repl_val); }
 	~AlterUnicast() { mpz_clear(last_id); mpz_clear(last_s); mpz_clear(repl_val); }
@@ -161,7 +162,7 @@ public:
 			bool first = !(have_last && mpz_cmp(m[0], last_id) == 0 && mpz_cmp(m[2], last_s) == 0);
 			if (first) {
 				have_last = true; mpz_set(last_id, m[0]); mpz_set(last_s, m[2]); repl = false;
-				if (enabled) { nb++; if (nb == k && !fired) { fired = true; repl = true; mpz_add_ui(repl_val, m[4], 1UL); } }
+				if (enabled) { nb++; if (nb == k && !fired) { fired = true; repl = true; if (mode == 1 && qq) mpz_sub(repl_val, m[4], qq); else mpz_add_ui(repl_val, m[4], 1UL); } }
 			}
 			if (repl) { std::vector<mpz_srcptr> mm(m); mm[4] = repl_val; return SimUnicast::Send(mm, i, to); }
 		}
@@ -275,7 +276,7 @@ static void run_scenario(Run &R) {
 			std::stringstream err;
 			try {
 				SimUnicast aiou(n, i, &uni, RR, R.TO); AlterUnicast aiou2(n, i, &bc, RR, R.TO);
-				if (R.isfaulty[i] && sc.fmode == FM_BCALT) aiou2.k = sc.alter_k;
+				if (R.isfaulty[i] && sc.fmode == FM_BCALT) { aiou2.k = sc.alter_k; aiou2.mode = sc.alter_mode; aiou2.qq = G.q; }
 				CachinKursawePetzoldShoupRBC rbc(n, t_rbc, i, &aiou2, RR, R.TO);
 				rbc.setID("c16-simnet");
 				std::unique_ptr<SimUnicast> raiou, raiou2; std::unique_ptr<CachinKursawePetzoldShoupRBC> rrbc;
@@ -620,15 +621,20 @@ int main(int argc, char **argv) {
 	// positions beyond the last broadcast do not fire and are counted as such.
 	{
 		bool q = ctx.quick();
-		auto add = [&](int scheme, size_t n, size_t t, long kk_alter) {
-			Scenario s; s.scheme = scheme; s.n = n; s.t = t; s.faulty = {(size_t)(kk_alter % (long)n)}; s.fmode = FM_BCALT; s.alter_k = kk_alter; s.keygen_faulty = 0;
+		auto add = [&](int scheme, size_t n, size_t t, long kk_alter, int mode = 0) {
+			Scenario s; s.scheme = scheme; s.n = n; s.t = t; s.faulty = {mode ? n - 1 : (size_t)(kk_alter % (long)n)};   // minus-q: the highest index (a negative summand is then not absorbed by a later wrap of the running sum) s.fmode = FM_BCALT; s.alter_k = kk_alter; s.alter_mode = mode; s.keygen_faulty = 0;
 			long kk = k++; if (!case_begin(kk, s.desc())) return; do_run_case(kk, s);
 		};
 		if (q) {
 			long off = (long)(ctx.seed % 4);
 			for (long i = 0; i < 24; i++) add(DSS, 4, 1, 1 + (off + 4 * i) % 96);
 			for (long kk_alter = 1; kk_alter <= 8; kk_alter++) add(NTS, 4, 1, kk_alter);
+			// the same residue as a negative representative (value - q): only the range conditions can tell
+			for (long kk_alter = 1; kk_alter <= 8; kk_alter++) for (int c = 0; c < (kk_alter >= 6 ? 4 : 1); c++) add(NTS, 4, 1, kk_alter, 1);
+			for (long i = 0; i < 8; i++) add(DSS, 4, 1, 1 + (off + 12 * i + 5) % 96, 1);
 		} else {
+			for (int rep = 0; rep < 4; rep++) for (long kk_alter = 1; kk_alter <= 10; kk_alter++) add(NTS, 4, 1, kk_alter, 1);
+			for (long kk_alter = 1; kk_alter <= 100; kk_alter += 2) add(DSS, 4, 1, kk_alter, 1);
 			for (long kk_alter = 1; kk_alter <= 100; kk_alter++) add(DSS, 4, 1, kk_alter);
 			for (long i = 0; i < 40; i++) add(DSS, 5, 1, 1 + (long)((ctx.seed + 3 * i) % 120));
 			for (long i = 0; i < 12; i++) add(DSS, 7, 2, 1 + (long)((ctx.seed * 7 + 13 * i) % 160));
